@@ -524,8 +524,8 @@ class Evaluator:
         if base is self.INS:
             self.reads.append((attr, node, fr.func))
             return Field(attr)
-        if isinstance(base, Field):
-            return Opq("ins." + base.name, attr) if False else Opq("attr", base, attr)
+        if isinstance(base, (Field, Opq)):
+            return Opq("attr", base, attr)
         if isinstance(base, Obj):
             a = self._mangle(attr, fr) if fr.self_obj is base else attr
             if a in base.state:
@@ -547,7 +547,7 @@ class Evaluator:
             raise AnalysisError("class %s has no attribute %s (%s)" % (base.cls.name, attr, fr.func.qualname))
         if isinstance(base, ModRef):
             return self.global_name(attr, base.mod)
-        if isinstance(base, (SList, dict, str, tuple, Sentinel, Opq, Emit, FuncRef)) or base is None or isinstance(base, (int, float)):
+        if isinstance(base, (SList, dict, str, tuple, Sentinel, Emit, FuncRef)) or base is None or isinstance(base, (int, float)):
             return Bound(base, attr)
         return Opq("attr", base, attr)
 
@@ -619,6 +619,8 @@ class Evaluator:
             return self.method_call(fn.recv, fn.name, plain, kwargs, node, fr)
         if isinstance(fn, Opq) and fn.op == "global":
             return self.builtin(fn.args[0], plain, kwargs, node, fr)
+        if isinstance(fn, Opq) and fn.op == "attr" and len(fn.args) == 2 and isinstance(fn.args[1], str):
+            return self.method_call(fn.args[0], fn.args[1], plain, kwargs, node, fr)
         return Opq("call", fn, *plain, *kwargs.values())
 
     def builtin(self, name, args, kwargs, node, fr):
@@ -784,7 +786,7 @@ class Evaluator:
             if a is None and b is None:
                 return not neg
             for x, y in ((a, b), (b, a)):
-                if y is None and (isinstance(x, (Obj, SList, dict, Emit, Sentinel, FuncRef, ClsRef, int, str, tuple)) and x is not None):
+                if y is None and (isinstance(x, (Obj, SList, dict, Emit, Sentinel, FuncRef, ClsRef, int, str, tuple, Field)) and x is not None):
                     return neg
             if isinstance(a, Obj) and isinstance(b, Obj):
                 return (a is b) != neg
@@ -878,7 +880,7 @@ class Evaluator:
             if isinstance(base, SList):
                 if conc and base.exact:
                     return SList(base.items[lo:hi:st])
-                return SList(base.items, False) if not conc or not base.exact else None
+                return SList(base.items, False)
             if isinstance(base, (tuple, str)) and conc:
                 return base[lo:hi:st]
             return Opq("slice", base, lo, hi, st)
